@@ -87,7 +87,7 @@ def encMembers (l : List Member) : String :=
 
 def opParse : List String → String
   | [src, ov] => withSet src ov "-" "=" fun ss _ =>
-      "ok " ++ toString ss.len ++ " " ++ encMembers ss.specs
+      "ok " ++ toString ss.len ++ " " ++ encMembers ss.specs ++ " rt=" ++ encB (ss.specs.all fun m => roundtrips m.1)
   | _ => "bad-op"
 
 def opStr : List String → String
